@@ -9,6 +9,7 @@ use symf::SymF;
 fn run_family<F: VF>(family: &str, ctx: &mut Ctx) {
     match family {
         "gates" => symf::gates::family::<F>(ctx),
+        "fri" => symf::fri::family::<F>(ctx),
         _ => panic!("unknown family {family}"),
     }
 }
